@@ -5,7 +5,7 @@ tenth of the file) and crafted contents (first boundary just above the effective
 early match followed by a forced cut).  TLC validates the multi-run trace against the Writer contract:
 same content + configuration => byte-identical file; prefix locality; suffix resynchronisation;
 min/max of automatic chunks."""
-import os, json, random, shutil, hashlib
+import os, json, random, shutil, hashlib, re
 from .. import common, ref, corpus, writegen
 from ..common import Check, Broken
 from .c02 import validate_segments
@@ -207,37 +207,68 @@ def run(tier):
             agree.append((t["content"], [c["end"] for c in t["chunks"]][:-1] == writegen.simulate_cuts(cdata[t["content"]])))
     ck.extra["placement_model_agrees_with_real_chunker"] = agree
     ck.extra["crafted_first_chunk_sizes"] = sorted({(t["content"], t["chunks"][0]["ulen"]) for t in crafted})
-    # one long multi-run trace (state = all earlier runs); validate in one TLC process
-    p = os.path.join(wd, "t.ndjson"); common.write_ndjson(p, trace)
-    ok, res = common.validate_trace("Trace_Writer", "Trace_Writer.cfg", p, timeout=1500)
-    ck.add_tlc("Trace_Writer (multi-run)", res); ck.traces += 1
-    rounds = 0
-    while not ok and rounds < 10:
-        rounds += 1
-        m = [x for x in res.out.splitlines() if "MATCHED" in x]
-        k = int(m[-1].split(",")[1]) if m else 0
-        ev = trace[min(k, len(trace) - 1)]
-        brief = {kk: vv for kk, vv in ev.items() if kk != "chunks"}
-        if ev["op"] == "run":
-            same = [t for t in trace[:k] if t["op"] == "run" and t["cfg"] == ev["cfg"] and t["content"] == ev["content"]]
-            brief["chunk_sizes"] = [c["ulen"] for c in ev["chunks"]][:20]
-            brief["earlier_run_same_content"] = [{"seg": t["seg"], "file": t["file"], "chunk_sizes": [c["ulen"] for c in t["chunks"]][:20]} for t in same[:1]]
-        elif ev["op"] == "minmax":
-            brief["chunk_sizes"] = [c["ulen"] for c in [t for t in trace if t["op"] == "run"][ev["a"] - 1]["chunks"]][:30]
-        cid = owner[min(k, len(owner) - 1)]
-        scr = ""
-        for i, r_ in enumerate(runs):
-            if r_[0] == cid:
-                keep = os.path.join(common.REPLAY, "C16-content-%d.bin" % rounds); shutil.copy(r_[4], keep)
-                scr = scripts[i].replace(r_[4], keep).replace(r_[5], os.path.join(common.REPLAY, "C16-out-%d.zck" % rounds))
-        ck.violation("%s not explained by the Writer contract: %s" % (ev["op"], json.dumps(brief)[:900]), scr, {"event": brief})
-        # neutralise the offending event and continue (a run keeps its number)
-        if ev["op"] == "run":
-            trace[k] = dict(ev, op="runx")
-        else:
-            trace = trace[:k] + trace[k + 1:]; owner = owner[:k] + owner[k + 1:]
-        common.write_ndjson(p, trace)
-        ok, res = common.validate_trace("Trace_Writer", "Trace_Writer.cfg", p, timeout=1500); ck.traces += 1
+    # one multi-run trace per configuration (the contract's state is the list of earlier runs; runs of different
+    # configurations never constrain each other, so the traces are validated separately and in parallel)
+    runs_global = [t for t in trace if t["op"] == "run"]
+    def cfg_of(t):
+        if t["op"] == "run": return t["cfg"]
+        if t["op"] in ("minmax", "pair"): return runs_global[t["a"] - 1]["cfg"]
+        return "(failures)"
+    groups = {}
+    for t, o in zip(trace[1:], owner[1:]):
+        groups.setdefault(cfg_of(t), []).append((t, o))
+    def validate_group(item):
+        gname, evs_ = item
+        local = {}; sub = [{"op": "wstart"}]; sown = ["all"]
+        for t, o in evs_:
+            t = dict(t)
+            if t["op"] == "run":
+                local[id(runs_global.index(t)) if False else runs_global.index(t) + 1] = len([x for x in sub if x["op"] in ("run", "runx")]) + 1
+            elif t["op"] == "minmax":
+                t["a"] = local.get(t["a"], 0)
+            elif t["op"] == "pair":
+                t["a"] = local.get(t["a"], 0); t["b"] = local.get(t["b"], 0)
+            sub.append(t); sown.append(o)
+        pth = os.path.join(wd, "t-%s.ndjson" % re.sub(r"[^A-Za-z0-9]+", "_", gname)); found = []; states = 0; ntr = 0
+        for rounds in range(10):
+            common.write_ndjson(pth, sub)
+            ok_, res_ = common.validate_trace("Trace_Writer", "Trace_Writer.cfg", pth, timeout=1500, heap="6g"); states += res_.distinct; ntr += 1
+            if ok_:
+                break
+            m = [x for x in res_.out.splitlines() if "MATCHED" in x]
+            k = int(m[-1].split(",")[1]) if m else 0
+            k = min(k, len(sub) - 1)
+            ev = sub[k]
+            brief = {kk: vv for kk, vv in ev.items() if kk != "chunks"}
+            subruns = [t for t in sub if t["op"] in ("run", "runx")]
+            if ev["op"] == "run":
+                same = [t for t in sub[:k] if t["op"] == "run" and t["content"] == ev["content"]]
+                brief["chunk_sizes"] = [c["ulen"] for c in ev["chunks"]][:20]
+                brief["earlier_run_same_content"] = [{"seg": t["seg"], "file": t["file"], "chunk_sizes": [c["ulen"] for c in t["chunks"]][:20]} for t in same[:1]]
+            elif ev["op"] == "minmax" and 0 < ev["a"] <= len(subruns):
+                brief["chunk_sizes"] = [c["ulen"] for c in subruns[ev["a"] - 1]["chunks"]][:30]
+            found.append((brief, sown[k], ev["op"]))
+            if ev["op"] == "run":
+                sub[k] = dict(ev, op="runx")          # neutralise the offending run and continue (it keeps its number)
+            else:
+                sub = sub[:k] + sub[k + 1:]; sown = sown[:k] + sown[k + 1:]
+        return gname, found, states, ntr
+    from concurrent.futures import ThreadPoolExecutor
+    with ThreadPoolExecutor(max_workers=6) as ex:
+        results = list(ex.map(validate_group, sorted(groups.items())))
+    nv = 0
+    for gname, found, states, ntr in results:
+        ck.states += states; ck.transitions += states; ck.traces += ntr
+        for brief, cid, opname in found:
+            nv += 1
+            scr = ""
+            for i, r_ in enumerate(runs):
+                if r_[0] == cid:
+                    keep = os.path.join(common.REPLAY, "C16-content-%d.bin" % nv); shutil.copy(r_[4], keep)
+                    scr = scripts[i].replace(r_[4], keep).replace(r_[5], os.path.join(common.REPLAY, "C16-out-%d.zck" % nv))
+            ck.violation("%s not explained by the Writer contract: %s" % (opname, json.dumps(brief)[:900]), scr, {"event": brief})
+    ck.models.append({"model": "Trace_Writer (one multi-run trace per configuration)", "traces": len(groups), "events": len(trace)})
+    p = os.path.join(wd, "t.ndjson")
     if not ck.violations:
         rr = [t for t in trace if t["op"] == "run"][:1]
         if rr:
